@@ -2,6 +2,7 @@
 """C03 — DataFrame.sort is a stable, key-ordered permutation of whole rows."""
 
 import numpy as np
+import dataiter as di
 from hypothesis import strategies as st
 
 from . import build, gen, model
@@ -45,6 +46,8 @@ def _plan(draw, max_rows):
     keys = draw(st.permutations(keys))
     plan = {"frame": {"n": n, "cols": [cols[i] for i in order]}, "keys": [list(k) for k in keys]}
     draw(gen.decorate(plan["frame"]))
+    if draw(st.integers(0, 5)) == 0:
+        plan["grouped_before"] = draw(st.integers(0, 5))
     if n >= 2 and draw(st.integers(0, 11)) == 0:
         # all keys plain numbers of different kinds: 64-bit integers that a float64 cannot tell apart must still
         # be ordered exactly (no stacking of the keys into one common dtype)
@@ -120,6 +123,16 @@ def check(plan, ctx):
     elif how == "derived":
         data = data.filter(np.ones(data.nrow, dtype=bool)).rename()
     ctx.cls("receiver_" + how)
+    if plan.get("grouped_before") is not None and dict.keys(data):
+        # history: the same object went through group_by(...).aggregate(...) earlier (group_by marks its receiver and
+        # nothing takes the mark back): a later sort is still by the named columns only
+        names = list(dict.keys(data))
+        g = names[plan["grouped_before"] % len(names)]
+        try:
+            data.group_by(g).aggregate(n=di.count())
+            ctx.cls("receiver_was_grouped_before")
+        except (TypeError, ValueError, KeyError):
+            data._group_colnames = ()           # a column that cannot be grouped: not the subject here
     _check_sort(plan, data, ctx)
     if plan.get("edits"):
         fp = {"n": plan["frame"]["n"], "cols": [dict(c, vals=list(c["vals"])) for c in plan["frame"]["cols"]]}
